@@ -9,8 +9,10 @@ BLOB = 128 + 512 + 1024
 
 def eligible(S, mvs):
     """only straight SP-based frames: no dynamic alignment, no frame pointer, every touched stack byte inside the 1024-byte window"""
-    if S.get("arch") != 1 or S["status"] != "ok" or S.get("da") or S["sareg"] != S["sp"]:
+    if S.get("arch") not in (0, 1) or S["status"] != "ok" or S.get("da") or S["sareg"] != S["sp"]:
         return False
+    if S.get("arch") == 0 and not S.get("same_in_long_mode"):
+        return False          # i386 code is run on the x86-64 host only when llvm-mc decodes the same bytes to the same instructions in 64-bit mode
     for m, ops in S["insts"]:
         for o in ops:
             if o[0] == "?": return False
